@@ -6,6 +6,9 @@ depth 6 / 10) with the call history as a variable and prints, for every behaviou
 abstract state it must lead to.  Each history is replayed on real dictables through the public API and the
 state is projected through four independent observation channels (column lists, len/shape, iteration,
 d[i][c]); everything must equal the printed expectation, aliasing included.
+The session holds the caller's own argument objects too (one Python object per name, handed to every call that names it, edited in
+place by the caller between calls); every ordered pair of calls sharing such objects is generated (Dictable_genshared*.cfg) and all
+objects are compared with what TLC says the caller left them as (argument_changed).
 C2S: random recorded histories (general slices, masks, values, += / -= forms, per-column transforms with lists of
 functions that take further columns) validated step by step by spec/Trace_Dictable.tla."""
 import json
